@@ -184,9 +184,9 @@ fn batch_case(ctx: &Ctx, rep: &mut Report, id: usize, k: usize, pat: usize, leg:
         if single.contains_key(&key) {
             continue;
         }
-        let lv = verify_one(&m.ctx.transcript(), &m.st, &m.proof, VerifyAction::VerifyOnly).is_ok();
         let rst = ref_statement_of(&m.st.generators, m.st.commitments.len(), &m.st.commitments, &m.st.minimum_value_promises);
-        let rv = Parts::of(&m.proof).to_ref().map(|rp| refbp::ref_verify(&m.ctx.transcript(), &rst, &rp)).unwrap_or(false);
+        let (lv, rv) = verdict_pair(&m.ctx.transcript(), &m.st, &m.proof, &rst, &Parts::of(&m.proof), VerifyAction::VerifyOnly);
+        let lv = lv.unwrap_or(false);
         rep.count("singleton_verdicts", 1);
         if lv != rv || lv != m.valid {
             rep.violation(
